@@ -277,6 +277,8 @@ pub struct CsvLayout {
     /// list order, a later matching rule's setting replaces an earlier one)
     pub override_rules: bool,
     pub blank_preamble_line: bool,
+    /// the first column is a reference column whose cells read `#1001`, `#1002`, ... (unquoted)
+    pub ref_first: bool,
     /// `conversion.commodity` overrides whatever the secondary-commodity cell says
     pub commodity_override: bool,
 }
@@ -348,6 +350,7 @@ impl CsvCase {
             compute: rng.chance(1, 3),
             dateless_rows: rng.chance(1, 4),
             disable_rule: conversion_cols && rng.chance(1, 3),
+            ref_first: rng.chance(1, 6),
             override_rules: conversion_cols && rng.chance(1, 5),
             blank_preamble_line: rng.chance(1, 2),
             commodity_override: conversion_cols && rng.chance(1, 3),
@@ -368,11 +371,13 @@ impl CsvCase {
             // with a running-balance column the sequence of the statement is what counts: now and
             // then a row booked late carries an earlier date than the row before it
             let row_day = if layout.balance_col && rng.chance(1, 10) { day - chrono::Duration::days(rng.range(1, 6)) } else { day };
-            let mag = Q::int(rng.range(1, 300000) as i128).mul(unit).unwrap();
+            // (one record in thirty moves nothing: a zero amount is an amount)
+            let zero_row = rng.chance(1, 30);
+            let mag = if zero_row { Q::ZERO } else { Q::int(rng.range(1, 300000) as i128).mul(unit).unwrap() };
             let mut amount = if rng.chance(2, 5) { mag } else { mag.neg() };
             let mut conv = None;
             let mut charge = None;
-            if layout.conversion_cols && rng.chance(1, 2) {
+            if layout.conversion_cols && !zero_row && rng.chance(1, 2) {
                 // (one secondary commodity per file; now and then a name with non-ASCII digits)
                 let pool: Vec<&str> = ["EUR", "USD", "GBP", "７２０３", "m²"].into_iter().filter(|c| *c != primary).collect();
                 let sec_commodity = pool[(opening.n.unsigned_abs() % pool.len() as u128) as usize].to_string();
@@ -432,6 +437,9 @@ impl CsvCase {
         // (field key, label)
         let l = &self.layout;
         let mut cols: Vec<(&'static str, String)> = vec![("date", "Date".into()), ("_ignored", "Product".into()), ("payee", "摘要 Payee".into())];
+        if l.ref_first {
+            cols.insert(0, ("_ref", "Ref".into()));
+        }
         if l.category_col {
             cols.push(("category", "Category".into()));
         }
@@ -492,6 +500,7 @@ impl CsvCase {
                 let v = match *key {
                     "date" => date_text(r.date, l.date_fmt),
                     "_ignored" => "普通".to_string(),
+                    "_ref" => format!("#{}", 1000 + (r.balance_after.n.unsigned_abs() % 9000)),
                     "payee" => r.payee.clone(),
                     "category" => r.category.clone(),
                     "amount" => {
@@ -499,14 +508,14 @@ impl CsvCase {
                         cell_number(shown, l.scale, l.num_style)
                     }
                     "credit" => {
-                        if r.amount.signum() > 0 {
+                        if r.amount.signum() > 0 || (r.amount.is_zero() && r.balance_after.n % 2 == 0) {
                             cell_number(r.amount, l.scale, l.num_style)
                         } else {
                             String::new()
                         }
                     }
                     "debit" => {
-                        if r.amount.signum() < 0 {
+                        if r.amount.signum() < 0 || (r.amount.is_zero() && r.balance_after.n % 2 != 0) {
                             cell_number(r.amount.neg(), l.scale, l.num_style)
                         } else {
                             String::new()
@@ -521,7 +530,8 @@ impl CsvCase {
                     "note" => r.note.clone(),
                     _ => String::new(),
                 };
-                cells.push(csv_cell(&v));
+                // (the reference cell is written bare: `#1002` is data, not a comment)
+                cells.push(if *key == "_ref" { v } else { csv_cell(&v) });
             }
             text.push_str(&cells.join(&d));
             text.push('\n');
@@ -567,7 +577,7 @@ impl CsvCase {
         }
         y.push_str("  fields:\n");
         for (i, (key, label)) in cols.iter().enumerate() {
-            if *key == "_ignored" {
+            if *key == "_ignored" || *key == "_ref" {
                 continue;
             }
             if *key == "payee" && l.payee_template {
